@@ -12,16 +12,46 @@ MAX_DEPTH = 3
 MAX_BLOCKS = 400
 
 
+_PINNED = None
+
+
+def _pinned():
+    global _PINNED
+    if _PINNED is None:
+        import json
+        import os
+
+        p = os.path.join(os.path.dirname(os.path.dirname(os.path.abspath(__file__))), "spec", "pinned_fns.json")
+        try:
+            with open(p) as fh:
+                _PINNED = set(json.load(fh)["fns"])
+        except Exception:
+            _PINNED = set()
+    return _PINNED
+
+
 def is_private_helper(j):
+    """A helper a refactoring introduced: a private / pub(crate) fn, or any hand-written fn (free, inherent or
+    trait-provided) that the pinned tree does not have."""
+    if j.get("kind") not in ("Fn", "AssocFn"):
+        return False
     v = j.get("vis")
-    return bool(v) and str(v).startswith("Restricted") and j.get("kind") in ("Fn", "AssocFn")
+    if bool(v) and str(v).startswith("Restricted"):
+        return True
+    if j.get("from_expansion") or j.get("impl_trait"):
+        return False  # derive output / trait impl items are reached by dynamic resolution, not spliced
+    pinned = _pinned()
+    return bool(pinned) and j["key"] not in pinned
 
 
-def _remap(x, lo, bo):
-    """Deep copy of a MIR JSON fragment with locals shifted by lo and block ids by bo."""
+def _remap(x, lo, bo, po=0):
+    """Deep copy of a MIR JSON fragment with locals shifted by lo, block ids by bo and promoted-constant indexes by po."""
     if isinstance(x, dict):
         out = {}
         for k, v in x.items():
+            if k == "const" and isinstance(v, dict) and isinstance(v.get("promoted"), int) and po:
+                out[k] = dict(v, promoted=v["promoted"] + po)
+                continue
             if k == "l" and isinstance(v, int):
                 out[k] = v + lo
             elif k == "idx" and isinstance(v, int):
@@ -35,10 +65,10 @@ def _remap(x, lo, bo):
             elif k in ("callee", "const"):
                 out[k] = v  # no locals / blocks inside
             else:
-                out[k] = _remap(v, lo, bo)
+                out[k] = _remap(v, lo, bo, po)
         return out
     if isinstance(x, list):
-        return [_remap(v, lo, bo) for v in x]
+        return [_remap(v, lo, bo, po) for v in x]
     return x
 
 
@@ -78,6 +108,10 @@ def inline_helpers(fns_json):
             lo = len(nj["locals"])
             bo = len(nj["blocks"])
             nj["locals"].extend(copy.deepcopy(h["locals"]))
+            # the helper's promoted constants travel with its body
+            po = len(nj.get("promoted") or [])
+            if h.get("promoted"):
+                nj["promoted"] = list(nj.get("promoted") or []) + list(h["promoted"])
             # arguments -> the helper's parameter locals
             sp = t.get("sp")
             for ai, a in enumerate(t["args"]):
@@ -85,7 +119,7 @@ def inline_helpers(fns_json):
                     nj["blocks"][i]["stmts"].append({"k": "assign", "place": {"l": lo + ai + 1}, "rv": {"use": a}, "sp": sp})
             nj["blocks"][i]["term"] = {"k": "goto", "target": bo, "sp": sp, "inlined_call": hk}
             for hb in h["blocks"]:
-                nb = _remap(hb, lo, bo)
+                nb = _remap(hb, lo, bo, po if h.get("promoted") else 0)
                 if nb["term"]["k"] == "return":
                     nb["stmts"] = list(nb["stmts"]) + [{"k": "assign", "place": t["dest"], "rv": {"use": {"move": {"l": lo}}}, "sp": sp}]
                     if t.get("target") is None:
